@@ -870,6 +870,10 @@ return func(name string) (Val, bool) {
 		if v, ok := vc.paramLookup(fr, name); ok {
 			return v, true
 		}
+		// the closest dominating phi carrying the name (a loop-carried or merged variable)
+		var phiVal Val
+		var phiBlk *ssa.BasicBlock
+	phis:
 		for b := n.blk; b != nil; b = b.Idom() {
 			for _, in := range b.Instrs {
 				phi, ok := in.(*ssa.Phi)
@@ -878,7 +882,8 @@ return func(name string) (Val, bool) {
 				}
 				if phi.Comment == name {
 					if v, ok := n.env[phi]; ok {
-						return v, true
+						phiVal, phiBlk = v, b
+						break phis
 					}
 				}
 			}
@@ -897,12 +902,13 @@ return func(name string) (Val, bool) {
 					if dr.IsAddr {
 						continue
 					}
-					in, isIn := dr.X.(ssa.Instruction)
-					if isIn {
-						db := in.Block()
-						if !(db == n.blk && (x == nil || instrIndex(dr.X) < instrIndex(x))) && !(db != n.blk && db.Dominates(n.blk)) {
-							continue
-						}
+					// the reference itself (not the value it names) must lie before the point
+					db := dr.Block()
+					if db == nil {
+						continue
+					}
+					if !(db == n.blk && (x == nil || instrPos(dr) < instrPos(x))) && !(db != n.blk && db.Dominates(n.blk)) {
+						continue
 					}
 					if _, ok := n.env[dr.X]; !ok {
 						continue
@@ -911,10 +917,23 @@ return func(name string) (Val, bool) {
 						best = dr
 						continue
 					}
-					bb, cb := blockOf(best.X), blockOf(dr.X)
-					if bb == nil || (cb != nil && bb != cb && bb.Dominates(cb)) || (cb != nil && bb == cb && instrIndex(dr.X) > instrIndex(best.X)) {
+					bb, cb := best.Block(), dr.Block()
+					if (bb != cb && bb.Dominates(cb)) || (bb == cb && instrPos(dr) > instrPos(best)) {
 						best = dr
 					}
+				}
+			}
+			// a plain definition closer to the point than the phi wins (another variable of the same name declared
+			// later, or a reassignment that dominates the point); otherwise the phi is the variable's current value
+			if phiBlk != nil {
+				useDef := false
+				if best != nil {
+					if db := best.Block(); db == phiBlk || phiBlk.Dominates(db) {
+						useDef = true
+					}
+				}
+				if !useDef {
+					return phiVal, true
 				}
 			}
 			if best != nil {
@@ -930,6 +949,22 @@ return func(name string) (Val, bool) {
 				return v, true
 			}
 		}
+		if phiBlk != nil {
+			return phiVal, true
+		}
 		return Val{}, false
 	}
+}
+
+// instrPos: index of an instruction inside its block (-1 when it has none)
+func instrPos(in ssa.Instruction) int {
+	if in == nil || in.Block() == nil {
+		return -1
+	}
+	for i, x := range in.Block().Instrs {
+		if x == in {
+			return i
+		}
+	}
+	return -1
 }
